@@ -26,8 +26,10 @@ class Family:
     def I(self, n, lo, hi):
         c = z3.Int(self.tag + n); self.consts.append(c); self.pre.append(z3.And(c >= lo, c <= hi)); return c
     def text(self, lab, sym_kind=True):
-        return Text(present=self.B(lab + '_p'), cdata=self.B(lab + '_cd') if sym_kind else False,
-                    content=self.S(lab + '_c', ['t', ' \n ', 'a&nbsp;&amp;b'], register=True), label=lab)
+        t = Text(present=self.B(lab + '_p'), cdata=self.B(lab + '_cd') if sym_kind else False,
+                 content=self.S(lab + '_c', ['t', ' \n ', 'a&nbsp;&amp;b', ''] if sym_kind else ['t', ' \n ', 'a&nbsp;&amp;b'], register=True), label=lab)
+        if sym_kind: self.pre.append(z3.Implies(t.content == z3.StringVal(''), t.cdata))          # a Text event is never empty; <![CDATA[]]> may be
+        return t
     def noise(self, lab):
         return Noise(present=self.B(lab + '_p'), kind=self.I(lab + '_k', 0, 3), label=lab)
     def attrs(self, lab, n, pool=APOOL):
@@ -160,7 +162,13 @@ class ParseHarness(Harness):
     def preconditions(self): return list(self.fam.pre)
     def domains(self): return dict(self.fam.doms)
     def consts(self): return list(self.fam.consts)
-    def scripts(self): return [X.doc_script(d, 'D%d' % i) for i, d in enumerate(self.docs)]
+    symbolic_positions = False
+    def scripts(self):
+        out = [X.doc_script(d, 'D%d' % i) for i, d in enumerate(self.docs)]
+        if self.symbolic_positions:
+            self.pos_pre = []
+            for i, sc in enumerate(out): X.number_positions(sc, 'D%d' % i, self.pos_pre)
+        return out
     def parse_all(self, m, scripts):
         root = None; steps = []
         for i, sc in enumerate(scripts):
